@@ -464,7 +464,7 @@ impl Prop for C05 {
             "no accuracy claim is asserted for float systems that are not diagonally dominant (the property makes none)".into(),
         ]
     }
-    fn stream_len(&self) -> usize {
+    fn stream_len(&self, _tier: Tier) -> usize {
         200
     }
     fn random_cases(&self, tier: Tier) -> usize {
